@@ -257,7 +257,7 @@ def run_case(case):
             ms = []
             for d in range(per_req):
                 snap = seg[k * per_req + d][-1]['post']
-                g, p, mt = oracle_rx(case, snap, lib_mode['tx_osnr'], mode_tables(lib_mode['format']))
+                g, p, mt = oracle_rx(case, snap, case['tx_osnr'], mode_tables(lib_mode['format']))
                 ms.append(mt)
             metric[m['format']] = ms
     # ---- thresholds around the measured forward metric (bounded to keep them finite when penalties are infinite)
@@ -286,7 +286,7 @@ def run_case(case):
         rq, pp, rp = by_id['fix_' + m['format']]
         transitions += 1
         lib_mode = next(x for x in trx.mode if x['format'] == m['format'])
-        thr = lib_mode['OSNR'] + margin
+        thr = thresholds[m['format']] + margin          # the threshold of the equipment document, not of the loaded object
         reason = getattr(rq, 'blocking_reason', None)
         dirs = [pp] + ([rp] if case['bidir'] and rp else [])
         exp_block = False
@@ -339,7 +339,7 @@ def run_case(case):
         fwd_ok = {}
         for m in fitting:
             lib_mode = next(x for x in trx.mode if x['format'] == m['format'])
-            thr = lib_mode['OSNR'] + margin
+            thr = thresholds[m['format']] + margin
             fwd_ok[m['format']] = round(metric[m['format']][0], 2) > thr
         ranked = [m['format'] for m in fitting]
         expected = next((f for f in ranked if fwd_ok[f]), None)
@@ -367,7 +367,7 @@ def run_case(case):
                     if rp and frp and not np.allclose(np.array(rp[-1].snr_01nm), np.array(frp[-1].snr_01nm), rtol=0, atol=1e-6):
                         v('auto-mode-reverse-figures', f'chosen {expected}: reverse-direction GSNR of the automatic request '
                           f'{np.array(rp[-1].snr_01nm)[:2]} differs from the same mode imposed {np.array(frp[-1].snr_01nm)[:2]}')
-                    rev_block = round(metric[expected][1], 2) < lib_mode['OSNR'] + margin
+                    rev_block = round(metric[expected][1], 2) < thresholds[expected] + margin
                     if (reason == 'MODE_NOT_FEASIBLE') != rev_block:
                         v('auto-mode-reverse-verdict', f'chosen {expected}: reverse metric {metric[expected][1]:.3f} threshold '
                           f'{lib_mode["OSNR"] + margin}; reason {reason}')
@@ -386,7 +386,7 @@ def oracle_from_path(case, path, lib_mode):
     n = len(raw)
     spacing = case['spacing']
     freqs = np.array([191.35e12 + spacing * (i + 1) for i in range(n)])
-    inv = 10 ** (-raw / 10) + 10 ** (-lib_mode['tx_osnr'] / 10) + roadm_osnr_terms(case, freqs)
+    inv = 10 ** (-raw / 10) + 10 ** (-case['tx_osnr'] / 10) + roadm_osnr_terms(case, freqs)
     g = -10 * np.log10(inv)
     imp = {'chromatic_dispersion': np.array(rx.chromatic_dispersion), 'pmd': np.array(rx.pmd), 'pdl': np.array(rx.pdl)}
     total = np.zeros(n)
